@@ -17,7 +17,7 @@ var (
 	Verbs      = []string{"cancel", "run", "Verb"}
 	Methods    = []string{"GET", "POST", "PUT", "DELETE", "PATCH", "HEAD"}
 	Medias     = []string{"application/json", "application/xml", "text/plain", "application/x-verif"}
-	VarVals    = []string{"index", "a", "x", "42", "a.b", "A", "ünï", "p:q", "x%2Fy", "abc", "007", "a b", "{x}", "v1", "z-0", "q.json", "longlonglonglonglonglonglonglonglonglonglonglonglonglonglonglonglonglonglonglong"}
+	VarVals    = []string{"index", "a", "x", "42", "a.b", "A", "ünï", "p:q", "x%2Fy", "abc", "007", "a b", "{x}", "v1", "z-0", "q.json", "longlonglonglonglonglonglonglonglonglonglonglonglonglonglonglonglonglonglonglong", strings.Repeat("w", 1025)}
 )
 
 // GenOpts selects the template fragment and table shape.
@@ -41,6 +41,34 @@ type GenOpts struct {
 	OddMethods bool     // now and then a method outside the usual six (extension methods, OPTIONS)
 	Twins      bool     // now and then a second route with the same method and path but other Consumes/Produces
 	MinSvcs    int
+	MediaMax   int // longest Consumes / Produces list (0: 2); beyond 4 the pool is extended by MoreMedias
+	CondMax    int // most If-conditions per route (0: 2)
+}
+
+// MoreMedias extends the media pool for long Consumes / Produces lists.
+var MoreMedias = []string{"application/x-t0", "application/x-t1", "application/x-t2", "application/x-t3", "application/x-t4", "application/x-t5", "application/x-t6", "application/x-t7",
+	"application/x-t8", "application/x-t9", "application/x-t10", "application/x-t11", "application/x-t12", "application/x-t13", "application/x-t14", "application/x-t15"}
+
+// Scale turns generator options into one of the "large" table shapes (counts beyond what small tables reach):
+// 0 long templates (up to 18 segments, many variables), 1 many WebServices (33-40), 2 long Consumes / Produces
+// lists (up to 12 entries), 3 many If-conditions per route (up to 10), 4 many routes in one service (up to 130).
+func Scale(o *GenOpts, variant int) string {
+	switch variant % 5 {
+	case 0:
+		o.MaxPathLen, o.MaxRootLen = 14, 4
+		return "long-templates"
+	case 1:
+		o.MaxSvcs, o.MinSvcs, o.MaxRoutes, o.MaxRootLen = 40, 33, 3, 3
+		return "many-services"
+	case 2:
+		o.MediaMax = 12
+		return "long-media-lists"
+	case 3:
+		o.CondMax = 10
+		return "many-conditions"
+	}
+	o.MaxRoutes, o.MaxSvcs = 130, 2
+	return "many-routes"
 }
 
 type genState struct {
@@ -97,10 +125,15 @@ func (g *genState) tmpl(n int, root bool) Tmpl {
 
 func (g *genState) mediaList(max int) []string {
 	r := g.r
+	pool := Medias
+	if g.o.MediaMax > max {
+		max = g.o.MediaMax
+		pool = append(append([]string{}, Medias...), MoreMedias...)
+	}
 	n := r.Intn(max + 1)
 	var out []string
 	for i := 0; i < n; i++ {
-		m := r.Pick(Medias)
+		m := r.Pick(pool)
 		if g.o.StarMedia && r.Chance(1, 10) {
 			m = "*/*"
 		}
@@ -219,8 +252,12 @@ func GenTable(r *core.Rand, o GenOpts) *Table {
 				rs.ViaSvc = r.Chance(1, 5)
 			}
 			if o.Conds && r.Chance(1, 4) {
-				for k := 0; k < r.Range(1, 2); k++ {
-					rs.Conds = append(rs.Conds, fmt.Sprintf("X-C%d", r.Intn(3)))
+				nc, pool := r.Range(1, 2), 3
+				if o.CondMax > 2 {
+					nc, pool = r.Range(1, o.CondMax), 12
+				}
+				for k := 0; k < nc; k++ {
+					rs.Conds = append(rs.Conds, fmt.Sprintf("X-C%d", r.Intn(pool)))
 				}
 			}
 			rid++
